@@ -140,19 +140,64 @@ func isArrayKey(v LNumber) bool {
 	return isInteger(v) && v < LNumber(int((^uint(0))>>1)) && v > LNumber(0) && v < LNumber(MaxArrayIndex)
 }
 
-func parseNumber(number string) (LNumber, error) {
-	var value LNumber
-	number = strings.Trim(number, " \t\n")
-	if v, err := strconv.ParseInt(number, 0, LNumberBit); err != nil {
-		if v2, err2 := strconv.ParseFloat(number, LNumberBit); err2 != nil {
-			return LNumber(0), err2
-		} else {
-			value = LNumber(v2)
-		}
-	} else {
-		value = LNumber(v)
+// luaNumeralBase classifies s (no surrounding white space) by the Lua 5.1 numeral grammar:
+// 10 for [+-] digits [. digits] [e [+-] digits] (at least one mantissa digit), 16 for
+// [+-] 0x hexdigits, 0 for anything else.
+func luaNumeralBase(s string) int {
+	isDec := func(c byte) bool { return '0' <= c && c <= '9' }
+	i := 0
+	if i < len(s) && (s[i] == '+' || s[i] == '-') {
+		i++
 	}
-	return value, nil
+	if len(s) > i+2 && s[i] == '0' && (s[i+1] == 'x' || s[i+1] == 'X') {
+		for i += 2; i < len(s); i++ {
+			if c := s[i] | 0x20; !isDec(s[i]) && (c < 'a' || c > 'f') {
+				return 0
+			}
+		}
+		return 16
+	}
+	nd := 0
+	for ; i < len(s) && isDec(s[i]); i++ {
+		nd++
+	}
+	if i < len(s) && s[i] == '.' {
+		for i++; i < len(s) && isDec(s[i]); i++ {
+			nd++
+		}
+	}
+	if nd > 0 && i < len(s) && (s[i] == 'e' || s[i] == 'E') {
+		if i++; i < len(s) && (s[i] == '+' || s[i] == '-') {
+			i++
+		}
+		for nd = 0; i < len(s) && isDec(s[i]); i++ {
+			nd++
+		}
+	}
+	if nd == 0 || i != len(s) {
+		return 0
+	}
+	return 10
+}
+
+// parseNumber is the one numeral reader shared by the compiler (number literals), tonumber and
+// the string->number coercion: Lua 5.1 numerals only, surrounding white space allowed.
+func parseNumber(number string) (LNumber, error) {
+	number = strings.Trim(number, " \t\n\v\f\r")
+	var v float64
+	var err error
+	switch luaNumeralBase(number) {
+	case 10:
+		v, err = strconv.ParseFloat(number, LNumberBit)
+	case 16: // a hexadecimal integer of any size, correctly rounded
+		v, err = strconv.ParseFloat(number+"p0", LNumberBit)
+	default:
+		return LNumber(0), fmt.Errorf("malformed number near '%s'", number)
+	}
+	if ne, ok := err.(*strconv.NumError); ok && ne.Err != strconv.ErrRange {
+		return LNumber(0), err
+	}
+	return LNumber(v), nil // out of range: ParseFloat has returned +-Inf
 }
 
 func popenArgs(arg string) (string, []string) {
